@@ -12,11 +12,18 @@ POOL = ThreadPoolExecutor(max_workers=12)
 
 
 # ----------------------------------------------------------------------------------------------- C13
+C13_MAPPINGS = {"std::time::Duration": "number", "chrono::Duration": "string", "time::Duration": "boolean", "PathBuf": "string"}
+
+
 def gen_once(files, mode, extra_args=(), keep=None):
     d = proc.sandbox("c13")
     try:
         proc.write_files(os.path.join(d, "src-tauri"), files)
-        rc, so, se = proc.run_cli(d, ["generate", "-p", "src-tauri", "-o", "out", "-v", mode] + list(extra_args))
+        # the settings come from a file with a mapping table (several qualified keys sharing their last segment: none of
+        # them names the bare `Duration` the sources use); flags on the command line still prevail
+        with open(os.path.join(d, "typegen.json"), "w") as fh:
+            json.dump({"project_path": "src-tauri", "output_path": "out", "validation_library": mode, "type_mappings": C13_MAPPINGS}, fh)
+        rc, so, se = proc.run_cli(d, ["generate", "-c", "typegen.json", "-p", "src-tauri", "-o", "out", "-v", mode] + list(extra_args))
         return rc, proc.read_out(os.path.join(d, "out")), se
     finally:
         proc.cleanup(d)
@@ -158,6 +165,41 @@ def cases_c08(ctx):
         hs.append(([EDIT("output_mode"), RUN(), EDIT("output_mode"), RUN()], build))
         hs.append(([EDIT("output_mode"), RUN(), EDIT("validator"), RUN()], build))
         hs.append(([EDIT("visualize_deps"), RUN(), DEL("dependency-graph.txt"), RUN()], build))
+    # systematic: every sequence of up to three steps over {run, forced run, edit, revert the edit, lose a generated file,
+    # lose the record, run with a write fault} followed by a plain run (quick: one in five, rotating with the seed)
+    alphabet = [RUN(), RUN(forced=True), EDIT("param_type"), EDIT("param_type", -1), DEL("types.ts"), DEL(".typecache"), RUN(fault=2)]
+    seqs = [[]]
+    allseq = []
+    for _ in range(3):
+        seqs = [q + [a] for q in seqs for a in alphabet]
+        allseq += seqs
+    k = 0
+    for q in allseq:
+        if not any(st["k"] == "run" for st in q):
+            continue
+        # the obstacle of a faulty run displaces the file it stands in for: it is only placed where the run regenerates
+        # anyway (first run, or right after an edit / the loss of the record)
+        def regenerates(i):
+            return i == 0 or q[i - 1]["k"] == "edit" or (q[i - 1]["k"] == "delete" and q[i - 1]["file"] == ".typecache")
+        if any(st.get("fault") is not None and not regenerates(i) for i, st in enumerate(q)):
+            continue
+        # "revert the edit" needs an edit to revert
+        level, okq = 0, True
+        for st in q:
+            if st["k"] == "edit":
+                level += st.get("delta", 1)
+                okq = okq and level >= 0
+        if not okq:
+            continue
+        for build in (False, True):
+            k += 1
+            if tier == "thorough" or k % 5 == ctx["seed"] % 5:
+                hs.append(([dict(x) for x in q] + [RUN()], build))
+    # a forced run in the middle: what it wrote must be what the record describes afterwards
+    for build in (False, True):
+        for a in (("param_type", "struct_field_type", "cmd_name", "output_mode", "event_name") if tier == "thorough" else ("param_type", "output_mode")):
+            hs.append(([RUN(), EDIT(a), RUN(forced=True), EDIT(a, -1), RUN()], build))
+            hs.append(([EDIT(a), RUN(forced=True), EDIT(a, -1), RUN(), RUN()], build))
     # a setting switched on, off (with a source edit meanwhile) and on again: what the first run left behind must not pass
     # for the result of the third
     for build in (False, True):
@@ -273,6 +315,9 @@ def cases_c14(ctx):
         # outputs that an earlier state produced and the current one does not (events.ts after the last emit went away)
         hs.append(([RUN(), EDIT("toggle_events"), RUN(), RUN(), RUN()], build))
         hs.append(([EDIT("visualize_deps"), RUN(), EDIT("visualize_deps"), RUN(), RUN()], build))
+        # a generated file goes missing while the record still matches: the repair run regenerates, the runs after it rest
+        for f in ("types.ts", "commands.ts", "index.ts", "events.ts"):
+            hs.append(([RUN(), DEL(f), RUN(), RUN(), RUN()], build))
     out += history_cases(hs, ctx, extra_oracle=force_oracle)
     for build in (False, True):
         for flag, cf in ((False, True), (True, False), (True, True), (False, False)):
@@ -327,17 +372,40 @@ def c17_init_case(fault, mode):
         proc.cleanup(d)
 
 
+def c17_crash_case(build, limit, aspect, zod):
+    """a run that is *killed* in the middle of a write (file-size limit: SIGXFSZ) after an output-changing edit; the next
+    plain run must not take the wreck for a finished generation"""
+    sb = hist.Sandbox("c17crash", build=build)
+    try:
+        if zod:
+            sb.edit("output_mode")
+        o1 = sb.run()
+        sb.edit(aspect)
+        if build:
+            rc, so, se = proc.run_build(sb.root, fsize=limit)
+        else:
+            rc, so, se = proc.run_cli(sb.root, ["generate", "-c", "typegen.json"], fsize=limit)
+        o3 = sb.run()
+        return Case({"what": "crash", "build": build, "limit": limit, "aspect": aspect, "zod": zod},
+                    {"crashed_run_not_remembered": o1["res"] == "ok" and o3["res"] == "ok" and o3.get("current", False)},
+                    detail={"crash_rc": rc, "after": {k: o3.get(k) for k in ("res", "action", "stale", "current")}, "stderr": se[-200:]})
+    finally:
+        sb.close()
+
+
 def cases_c17(ctx):
     tier = ctx["tier"]
     if ctx["replay"]:
         d = ctx["replay"]["replay_case"]
         if d.get("what") == "init_fault":
             return [c17_init_case(d["fault"], d["mode"])]
+        if d.get("what") == "crash":
+            return [c17_crash_case(d["build"], d["limit"], d["aspect"], d["zod"])]
         return history_cases([(d["steps"], d["build"])], ctx, extra_oracle=fault_oracle)
     hs = []
     for build in (False, True):
-        for viz in (False, True):
-            pre = [EDIT("visualize_deps")] if viz else []
+        for viz, zod in ((False, False), (True, False), (False, True)):
+            pre = ([EDIT("visualize_deps")] if viz else []) + ([EDIT("output_mode")] if zod else [])
             nfiles = 6 if viz else 4
             for f in range(0, nfiles + 1):
                 # fault in a first run, then recovery
@@ -369,6 +437,10 @@ def cases_c17(ctx):
     out = history_cases(hs, ctx, extra_oracle=fault_oracle)
     for f in range(4):
         out.append(c17_init_case(f, ("none", "zod")[f % 2]))
+    # crash points: the process is killed inside the write that would push a file past 100 / 400 / 900 / 1500 bytes
+    for build in (False, True):
+        for k, limit in enumerate((100, 400, 900, 1500) if tier == "thorough" else (400, 1500)):
+            out.append(c17_crash_case(build, limit, ("param_type", "cmd_name")[k % 2], k % 2 == 1))
     return out
 
 
@@ -437,6 +509,18 @@ def c16_case(layout, path_kind, mode, seq, seed, tables=None):
             elif act == "init":
                 rc, so, se = proc.run_cli(proj, ["init", "-p", "src-tauri", "-g", out_arg, "-v", mode])
                 cfg_touched = os.path.relpath(os.path.join(proj, "src-tauri", "tauri.conf.json"), root)
+            elif act == "init_dot":
+                # the configuration document named explicitly, in the `./` spelling, while the project path has one too
+                rc, so, se = proc.run_cli(proj, ["init", "-p", "src-tauri", "-g", out_arg, "-o", "./tauri.conf.json", "-v", mode])
+                cfg_touched = os.path.relpath(os.path.join(proj, "tauri.conf.json"), root)
+            elif act == "cache_dir":
+                # a foreign *directory* that happens to be called like the cache record, with a file of the user's in it
+                cd = os.path.join(out_abs, ".typecache")
+                if os.path.isfile(cd):
+                    os.remove(cd)
+                os.makedirs(cd, exist_ok=True)
+                open(os.path.join(cd, "notes-of-mine.txt"), "w").write("keep me\n")
+                continue
             elif act == "init_custom":
                 rc, so, se = proc.run_cli(proj, ["init", "-p", "src-tauri", "-g", out_arg, "-o", "my-typegen.json", "-v", mode])
                 cfg_touched = os.path.relpath(os.path.join(proj, "my-typegen.json"), root)
@@ -570,6 +654,9 @@ def cases_c16(ctx):
         ["build", "block_probe", "build", "unblock_probe", "build"],
         ["generate", "block_probe", "generate", "touch_source", "generate", "unblock_probe", "generate"],
         ["block_probe", "build", "unblock_probe", "build"],
+        ["need_conf", "init_dot", "generate"],
+        ["cache_dir", "generate", "build"],
+        ["generate", "cache_dir", "touch_source", "generate", "build"],
     ]
     jobs = []
     k = 0
@@ -593,7 +680,23 @@ def c19_project(root, rel, cmd):
     proc.write_files(os.path.join(root, rel), {"lib.rs": "#[tauri::command]\npub fn %s(id: i32) -> String {\n    todo!()\n}\n" % cmd})
 
 
-def c19_resolve_case(flags, filecfg, tables):
+def spell_json(doc, spelling):
+    """the same JSON document in another spelling: escaped characters in keys and values, wide indentation, reordered keys"""
+    if spelling == "escaped":
+        t = json.dumps(doc)
+        for w in ("typegen", "plugins", "projectPath", "outputPath", "validationLibrary", "zod", "projA", "outFile"):
+            t = t.replace('"%s"' % w, '"%s\\u%04x%s"' % (w[:2], ord(w[2]), w[3:]))
+        return t
+    if spelling == "pretty":
+        return json.dumps(doc, indent=8, sort_keys=True) + "\n\n"
+    if spelling == "reversed":
+        def rev(x):
+            return {k: rev(x[k]) for k in reversed(list(x))} if isinstance(x, dict) else x
+        return json.dumps(rev(doc), separators=(",", ":"))
+    return json.dumps(doc)
+
+
+def c19_resolve_case(flags, filecfg, tables, spelling="plain"):
     """one combination of command-line flags and a discovered tauri.conf.json block"""
     root = proc.sandbox("c19")
     try:
@@ -604,7 +707,7 @@ def c19_resolve_case(flags, filecfg, tables):
         if filecfg is not None:
             doc = {"productName": "demo", "plugins": {"typegen": filecfg}}
             with open(os.path.join(root, "tauri.conf.json"), "w") as fh:
-                json.dump(doc, fh)
+                fh.write(spell_json(doc, spelling))
         args = ["generate"]
         if "p" in flags:
             args += ["-p", flags["p"]]
@@ -648,7 +751,7 @@ def c19_resolve_case(flags, filecfg, tables):
         req = {"op": "configResolve", "h": core.hashlib.sha1(json.dumps([flags, filecfg], sort_keys=True).encode()).hexdigest()[:16],
                "in": {"flags": flags, "doc": doc, "existing": existing},
                "impl": {"observed": observed, "wrote_anything": wrote and rc != 0}, "meta": {}}
-        return Case({"what": "resolve", "flags": flags, "file": filecfg}, {}, [], request=req,
+        return Case({"what": "resolve", "flags": flags, "file": filecfg, "spelling": spelling}, {}, [], request=req,
                     detail={"rc": rc, "stderr": se[-300:], "observed": observed})
     finally:
         proc.cleanup(root)
@@ -684,13 +787,47 @@ def c19_init_case(lib, plugins_value):
         proc.cleanup(root)
 
 
+def c19_init_target_case(out_arg, lib):
+    """init told where the configuration lives (`--output <path>`): exactly that document receives the settings, every
+    other key of it is preserved, and a tauri.conf.json elsewhere (in the project path / the working directory) is left
+    alone"""
+    root = proc.sandbox("c19t")
+    try:
+        c19_project(root, "src-tauri", "from_default")
+        docs = {"tauri.conf.json": {"productName": "root-doc", "plugins": {"shell": {"open": True}}},
+                "src-tauri/tauri.conf.json": {"productName": "project-doc", "identifier": "x"},
+                "conf/tauri.conf.json": {"productName": "conf-doc"}}
+        for rel, d in docs.items():
+            os.makedirs(os.path.dirname(os.path.join(root, rel)) or root, exist_ok=True)
+            with open(os.path.join(root, rel), "w") as fh:
+                json.dump(d, fh, indent=2)
+        before = {rel: open(os.path.join(root, rel)).read() for rel in docs}
+        rc, so, se = proc.run_cli(root, ["init", "-p", "src-tauri", "-g", "out", "-o", out_arg, "-v", lib])
+        after = {rel: open(os.path.join(root, rel)).read() for rel in docs}
+        # the bare default name is documented to mean "the one in the project path"; every other spelling names a file
+        target = "src-tauri/tauri.conf.json" if out_arg == "tauri.conf.json" else os.path.normpath(out_arg)
+        got = json.loads(after[target]) if target in after else {}
+        stored = got.get("plugins", {}).get("typegen", {})
+        ok_target = rc == 0 and stored.get("validationLibrary") == lib and stored.get("outputPath") == "out" and all(
+            got.get(k) == v for k, v in docs[target].items() if k != "plugins") and all(
+            got.get("plugins", {}).get(k) == v for k, v in docs[target].get("plugins", {}).items())
+        others_untouched = all(after[rel] == before[rel] for rel in docs if rel != target)
+        return Case({"what": "init_target", "output": out_arg, "lib": lib},
+                    {"named_document_receives_settings": ok_target, "other_documents_untouched": others_untouched}, [],
+                    detail={"rc": rc, "stderr": se[-200:], "changed": [r for r in docs if after[r] != before[r]]})
+    finally:
+        proc.cleanup(root)
+
+
 def cases_c19(ctx):
     tier = ctx["tier"]
     if ctx["replay"]:
         d = ctx["replay"]["replay_case"]
         if d.get("what") == "init":
             return [c19_init_case(d["lib"], d["plugins"])]
-        return [c19_resolve_case(d["flags"], d["file"], ctx["tables"])]
+        if d.get("what") == "init_target":
+            return [c19_init_target_case(d["output"], d["lib"])]
+        return [c19_resolve_case(d["flags"], d["file"], ctx["tables"], d.get("spelling", "plain"))]
     files = [None,
              {"projectPath": "projA", "outputPath": "outFile", "validationLibrary": "zod"},
              {"projectPath": "projA", "outputPath": "outFile", "validationLibrary": "zod", "verbose": True, "force": True},
@@ -705,11 +842,13 @@ def cases_c19(ctx):
         for f in files:
             if tier != "thorough" and (mask % 3 == 2) and f not in (files[1], files[3], files[4]):
                 continue
-            jobs.append((flags, f, ctx["tables"]))
+            jobs.append((flags, f, ctx["tables"], ("plain", "escaped", "pretty", "reversed")[len(jobs) % 4]))
     jobs.append(({"v": "yup"}, files[1], ctx["tables"]))
     jobs.append(({"p": "nowhere"}, files[1], ctx["tables"]))
     out = list(POOL.map(lambda a: c19_resolve_case(*a), jobs))
     for lib in ("none", "zod", "yup", "Zod"):
         for pl in (None, {}, {"shell": {"open": True}}, "oops", [1]):
             out.append(c19_init_case(lib, pl))
+    for k, o in enumerate(("tauri.conf.json", "./tauri.conf.json", "conf/tauri.conf.json", "./conf/tauri.conf.json", "src-tauri/tauri.conf.json", "conf/../tauri.conf.json")):
+        out.append(c19_init_target_case(o, ("zod", "none")[k % 2]))
     return out
